@@ -94,8 +94,8 @@ func main() {
 		Rule: "One scenario per (protocol CPK/RLK round 1/RLK round 2/GAL/EVK, modulus chain incl. three conjugate-invariant rings of even and odd log N, NTT flag, evaluation-key parameters LevelQ/LevelP/BaseTwoDecomposition, Galois element (the whole group on the default chains), number of parties N). " +
 			"Inside, the merge lattice of share aggregation is searched: state = partition of the N party shares into merged groups, transition = AggregateShares(a,b) of two pending groups. " +
 			"mode full (N<=4, CPK <=5 quick; <=5, CPK <=6 thorough): every pair at every step = every order and every tree shape (N!(N-1)!/2^(N-1) histories); mode adjacent: every tree shape in index order ((N-1)! histories); " +
-			"mode leftdeep (N=6..8): every fold order within <= `bound` departures from index order (the cap: 2 quick, 3 thorough). Per merge one of 8 variants (plain, operands swapped, MarshalBinary hop of either operand, output aliasing either operand, " +
-			"WriteTo/ReadFrom hop of the first operand over a one-byte-per-read transport / of the second over a transport whose first read ends at byte 5). Two more non-free axes per leaf: how the parties' protocol objects were obtained " +
+			"mode leftdeep (N=6..8): every fold order within <= `bound` departures from index order (the cap: 2 quick, 3 thorough). Per merge one of 10 variants (for CPK 8) (plain, operands swapped, MarshalBinary hop of either operand, output aliasing either operand, " +
+			"WriteTo/ReadFrom hop of the first operand over a one-byte-per-read transport / of the second over a transport whose first read ends at byte 5, UnmarshalBinary of the first / second operand into a receive buffer that already holds a share of the largest / smallest shape). Chains include one with 60/61-bit primes in Q and P at 5..8 parties. Two more non-free axes per leaf: how the parties' protocol objects were obtained " +
 			"(ShallowCopies of party 0's, all constructed, a chain of copies) and what they did before (nothing / a run at a lower shape with the same key objects / a run at another shape with other keys). At most `bound` (1; 2 in thorough for N<=4) non-default answers over all non-free axes. " +
 			"Every transition is compared with the coefficient-wise modular sum of the member shares (so equal partitions hold equal shares and all terminal states coincide); " +
 			"each terminal state's key is then used by the single-party encryptor/evaluator and read with an independent, ring-type aware phase computation under the ideal secret sum(s_i). " +
@@ -121,11 +121,11 @@ func expect(tier string) []string {
 		"proto=cpk", "proto=rlk1", "proto=rlk2", "proto=gal", "proto=evk",
 		"merge-mode=full", "merge-mode=leftdeep", "merge-mode=adjacent",
 		"merge-variant=plain", "merge-variant=swap", "merge-variant=hop-first", "merge-variant=hop-second", "merge-variant=alias-first", "merge-variant=alias-second",
-		"merge-variant=stream-first-1byte", "merge-variant=stream-second-split5",
+		"merge-variant=stream-first-1byte", "merge-variant=stream-second-split5", "merge-variant=decode-first-into-used-receiver-A", "merge-variant=decode-second-into-used-receiver-B",
 		"instances=copies-of-party0", "instances=all-constructed", "instances=chain-of-copies",
 		"history=first-use", "history=after-run-at-lower-shape-same-keys", "history=after-run-at-other-shape-other-keys",
 		"parties=1", "parties=2", "parties=3", "parties=4", "parties=5", "parties=6", "parties=7", "parties=8",
-		"chain=mid", "chain=mixed", "chain=mixup", "chain=nop", "chain=big", "chain=midci", "chain=mixedci", "chain=nopci",
+		"chain=mid", "chain=mixed", "chain=mixup", "chain=nop", "chain=big", "chain=big61", "chain=midci", "chain=mixedci", "chain=nopci",
 		"ntt=true", "ntt=false", "b2=0", "b2=7", "b2=16", "lp=-1", "lp=0", "lp=1", "lq=0",
 		"functional=key-rows", "functional=cpk-encrypt", "functional=rlk-relinearize", "functional=gal-automorphism", "functional=evk-reencrypt",
 		"digits=unequal", "crs=replayed",
